@@ -30,6 +30,8 @@ def check(run):
         # helpers this property stands on (rule sets owned by other properties, see common.deps)
         from common import deps as _deps
         _deps(run, F, 'drivers', 'isnone', 'accessors', 'casts', 'wrappers', 'fast_paths')
+        if cfg == 'base':
+            _deps(run, F, 'ord')   # elements are compared through their own PartialOrd
         ks = {k.name: k for k in find_kernels(F) if k.fn.file.endswith(('cmp.rs', 'norm.rs'))}
         run.floor('C03', 'kernels in cmp.rs + norm.rs', len(ks), 7)
         if cfg == 'base':
